@@ -242,7 +242,8 @@ CLAIM = {
     "text": "MIR rules: (PRUNE) edge-dominance of every Ok(true) in should_prune by exact-statistics reads and a strict, correctly oriented "
             "range test; (FRAME) write-set inclusion for ScanFilterPushdown (only appends to scan_filters); (FILES) provenance of the "
             "skip/step_by arguments in every multi-file scan. These make pushdown and file distribution conservative by construction for "
-            "all inputs; value conversions of statistics are not decided.",
+            "all inputs; value conversions of statistics are not decided. (COLIDX) the Parquet struct reader matches pushed-down filters to "
+            "column readers by column index, never by the position in the projection list.",
     "note": "trusted: rustc MIR; comparison orientation is read from the operands' field provenance (stats.min / stats.max / filter constant)",
     "technique": "static analysis: MIR edge-dominance + frame (write-set) + provenance rules (rustc_private driver)",
 }
